@@ -80,9 +80,9 @@ def main():
     if os.path.isdir(bd):
         out.append("### 10.F Independent behaviour-preserving refactorings and the verdict of every check\n")
         out.append("Each patch was written by a sub-agent that saw only the property text and its own worktree and was asked for a behaviour-preserving change (tests pass; mostly a differential driver with identical output). `tools/run_benign.py` runs all registered checks against it: `silent` = all exit 0; otherwise the checks that answered exit 1 (alarm) or exit 2 (construct not modelled) are named.\n")
-        out.append("| patch | files | kind / what (first line of NOTES) | verdict over all checks |")
-        out.append("|---|---|---|---|")
-        tot = al = inc = 0
+        out.append("| patch | files | kind / what (first line of NOTES) | first verdict (before hardening) | verdict now, all checks |")
+        out.append("|---|---|---|---|---|")
+        tot = al = inc = fal = finc = 0
         for bid in sorted(os.listdir(bd)):
             mp = os.path.join(bd, bid, "meta.json")
             if not os.path.exists(mp):
@@ -92,17 +92,23 @@ def main():
             np_ = os.path.join(bd, bid, "NOTES.md")
             if os.path.exists(np_):
                 txt = [l.strip() for l in open(np_).read().splitlines() if l.strip() and not l.startswith("#")]
-                first = " ".join(txt[:2])[:200]
+                first = " ".join(txt[:2])[:160]
             ch = m.get("checks", {})
-            bad = ["%s exit %d%s" % (p, c["exit"], (" (" + re.sub(r"^rule=(\S+).*", r"\1", (c.get("violations") or c.get("incomplete") or [""])[0])[:60] + ")") if c["exit"] in (1, 2) else "") for p, c in sorted(ch.items()) if c["exit"] != 0]
+            def rule_of(s):
+                mm = re.search(r"rule=(\S+?)[: ]", s + " ")
+                return mm.group(1) if mm else ""
+            bad = ["%s exit %d (%s)" % (p, c["exit"], rule_of((c.get("violations") or c.get("incomplete") or [""])[0])) for p, c in sorted(ch.items()) if c["exit"] != 0]
+            fz = m.get("first_nonzero", {})
+            fbad = ["%s exit %d (%s)" % (p, c["exit"], rule_of(c.get("msg", ""))) for p, c in sorted(fz.items())]
             tot += 1
-            al += any(c["exit"] == 1 for c in ch.values())
-            inc += (not any(c["exit"] == 1 for c in ch.values())) and any(c["exit"] == 2 for c in ch.values())
+            a1 = any(c["exit"] == 1 for c in ch.values()); a2 = any(c["exit"] == 2 for c in ch.values())
+            f1 = any(c["exit"] == 1 for c in fz.values()); f2 = any(c["exit"] == 2 for c in fz.values())
+            al += a1; inc += (not a1) and a2; fal += f1; finc += (not f1) and f2
             v = "not run" if not ch else ("silent (%d checks)" % len(ch) if not bad else "; ".join(bad))
             if m.get("triage"):
                 v += " — " + m["triage"]
-            out.append("| %s | %s | %s | %s |" % (bid, ", ".join(os.path.basename(f) for f in m.get("files", []))[:80], first.replace("|", "/"), v.replace("|", "/")))
-        out.append("\nTotals: %d patches; %d with at least one alarm (exit 1); %d more with only exit 2; %d silent under every check.\n" % (tot, al, inc, tot - al - inc))
+            out.append("| %s | %s | %s | %s | %s |" % (bid, ", ".join(os.path.basename(f) for f in m.get("files", []))[:70], first.replace("|", "/"), ("; ".join(fbad) or "silent").replace("|", "/"), v.replace("|", "/")))
+        out.append("\nTotals over %d patches (ids `-bN` = round 1, `-cN` = round 2): first verdict %d with an alarm (exit 1), %d more with only exit 2; now %d with an alarm, %d with only exit 2, %d silent under every check.\n" % (tot, fal, finc, al, inc, tot - al - inc))
     block = "\n".join(out) + "\n"
     p = os.path.join(HERE, "DESIGN.md")
     s = open(p).read()
